@@ -5,12 +5,12 @@ go 1.25.0
 require (
 	codeberg.org/TauCeti/mangle-go v0.0.0
 	github.com/anishathalye/porcupine v1.3.0
+	github.com/antlr4-go/antlr/v4 v4.13.1
 	github.com/klauspost/compress v1.18.6
 )
 
 require (
 	bitbucket.org/creachadair/stringset v0.0.14 // indirect
-	github.com/antlr4-go/antlr/v4 v4.13.1 // indirect
 	github.com/chzyer/readline v1.5.1 // indirect
 	go.uber.org/multierr v1.11.0 // indirect
 	golang.org/x/exp v0.0.0-20260611194520-c48552f49976 // indirect
